@@ -218,8 +218,8 @@ PROPS = {
     ),
     'C13': dict(
         title='wrappers are call-transparent', proj='proj_full', oracle='c13',
-        quick=[S_('wrap', count=640)],
-        thorough=[S_('wrap', count=12000)],
+        quick=[S_('wrap', count=640), S_('wlist', nc=4)],
+        thorough=[S_('wrap', count=12000), S_('wlist', nc=4)],
         runtime_part='functools.partial / descriptor call path: call transparency is definitional in any model and is validated on the real objects, not proved',
         level_text='Introspection side as theorems: wrappers() order for any stack depth, each stack level is a forwards (hence sound by C04), the Combination signature is sound for consistently named '
                    'functions (instance of the n-ary merge soundness theorem). Real side: decorator / wrapper_decorator stacks of depth 1-3 as function / method / staticmethod and Combinations of 1-3 '
